@@ -35,6 +35,17 @@ def main():
         i = args.index("--tier")
         tier = args[i + 1]
         del args[i:i + 2]
+    scratch = "--scratch" in args
+    if scratch:
+        # while other work is reading /repo: use a throw-away worktree and point the build at it (VERIF_REPO)
+        args.remove("--scratch")
+        global REPO
+        REPO = "/var/tmp/seeded-wt-%d" % os.getpid()
+        sh("git -C /repo worktree add -f %s HEAD" % REPO)
+        for f in ("common/config.h", "include/xcm_version.h"):
+            if os.path.exists("/repo/" + f):
+                sh("cp /repo/%s %s/%s" % (f, REPO, f))
+        os.environ["VERIF_REPO"] = REPO
     ids = args or sorted(d for d in os.listdir(SEEDED) if os.path.isdir(os.path.join(SEEDED, d)))
     if sh("git -C %s status --porcelain --untracked-files=no" % REPO).stdout.strip():
         print("refusing to run: /repo has uncommitted changes to tracked files")
@@ -67,6 +78,13 @@ def main():
                                 detected=any(v["rc"] == 1 for v in res.values()))
         finally:
             clean_repo()
+    if scratch:
+        sh("git -C /repo worktree remove --force %s; git -C /repo worktree prune" % REPO)
+    prev = {}
+    if os.path.exists(os.path.join(SEEDED, "RESULTS.json")) and args:
+        prev = json.load(open(os.path.join(SEEDED, "RESULTS.json")))
+    prev.update(results)
+    results = prev
     with open(os.path.join(SEEDED, "RESULTS.json"), "w") as f:
         json.dump(results, f, indent=1, sort_keys=True)
     nd = sum(1 for v in results.values() if v.get("detected"))
